@@ -458,6 +458,18 @@ def dotted_cases():
                             if not left and not right:
                                 continue
                             out.append(wrap_dotted(inner, d0, d1, left, right))
+    # an EARLIER segment that is a near miss containing the whole later (real) segment as a substring at a non-word
+    # position (xfoo_bar_id.foo_bar_id, cfg.XFOO_BAR_X.FOO_BAR_X): the extractor must locate each segment where it IS, not
+    # where its text first occurs in the path; the near miss stays, the real segment is rewritten in place
+    for st, glue in (("snake", "x"), ("snake", "sub"), ("kebab", "x"), ("camel", "x"), ("screaming_snake", "X"), ("screaming_snake", "SUB")):
+        for npre, nsuf in ((0, 1), (1, 0), (1, 1), (0, 0)):
+            for lead_seg in ("", "cfg."):
+                for tail in ("", ".end"):
+                    inner = Case(st, "", PRE_WORDS[npre], SUF_WORDS[nsuf], "none", "", TERMS[2], REPLS[2])
+                    left = lead_seg + glue + inner.ident + "."
+                    if has_word_sequence(glue + inner.ident, TERMS[2]):
+                        continue        # (hump / capitalised renderings: the glued text would itself contain the term)
+                    out.append(wrap_dotted(inner, "", "", left, tail))
     return out
 
 
